@@ -78,6 +78,16 @@ class Sim(object):
         self.target = cfg.get('target')
         self.escaped = []
         self.failed_cids = {}
+        self.heard = collections.defaultdict(dict)
+        self.leader_now = {}
+        self.notified = collections.defaultdict(set)
+        self.isolated_long = set()
+        self.rejoined_after_isolation = False
+        self.cut_epoch = collections.Counter()
+        self.cut_since = {}
+        self.ro_terms_seen = {}
+        self.ro_rejoined_after_leader_change = False
+        self.ro_with_minority = False
         self.pending_old_ae = []
         self.cb_seen = 0
         self.napplied = collections.Counter()
@@ -138,7 +148,15 @@ class Sim(object):
             kw['fullDumpFile'] = os.path.join(self.workdir, name + '.dump')
         return SyncObjConf(**kw)
 
+    def cut_off(self, name):
+        """True if partitions/kills leave `name` without a reachable majority of voters."""
+        mem = self.member_set(name)
+        reach = sum(1 for v in mem if v != name and v in self.nodes and frozenset((name, v)) not in self.blocked)
+        me = 0 if self.is_ro(name) else 1
+        return (reach + me) * 2 <= len(mem)
+
     def start_node(self, name, others=None):
+        self.notified[name] = set()
         core._CURRENT['net'] = self.net
         core._CURRENT['name'] = name
         CLOCK.active = name
@@ -172,6 +190,10 @@ class Sim(object):
     def on_state_changed(self, name, old, new):
         obj = self.nodes.get(name)
         term = obj.raftCurrentTerm if obj is not None else None
+        if new == 2:
+            now = CLOCK.t.get(name, core.EPOCH)
+            for v in self.voters:
+                self.heard[name][v] = now
         self.role_events.append((self.step_no, name, old, new, term))
 
     def on_apply(self, obj, method, cid):
@@ -183,6 +205,8 @@ class Sim(object):
     def on_send(self, x, y, gen, message):
         if isinstance(message, dict):
             t = message.get('type')
+            if self.is_ro(x) and t in ('request_vote', 'response_vote', 'append_entries'):
+                self.V('C18', 'readonly-node-sent-%s' % t, 'read-only node %s sent %s to %s' % (x, t, y))
             if t == 'response_vote':
                 self.votes[(x, self.incarnation[x], message['term'])].add(y)
                 self.votes_flat_add(x, message['term'], y)
@@ -207,6 +231,8 @@ class Sim(object):
             self.V('C07', 'vote-for-older-term', '%s granted a vote for term %d although it had acknowledged term %d before' % (voter, term, self.max_term[voter]))
 
     def on_deliver(self, frm, to, gen, message):
+        if not self.is_ro(frm):
+            self.heard[to][frm] = CLOCK.t.get(to, core.EPOCH)
         if isinstance(message, dict) and message.get('type') == 'next_node_idx':
             k = (to, frm)
             if self.inflight_ae[k] > 0:
@@ -260,13 +286,37 @@ class Sim(object):
         self.check()
         return r
 
+    def tick_node(self, name, dt):
+        CLOCK.advance(name, dt)
+        t_start = CLOCK.t.get(name, core.EPOCH)
+        obj = self.nodes[name]
+        self.call(name, obj._onTick, 0.0)
+        self.after_tick(name, obj, t_start)
+
+    def after_tick(self, name, obj, t_start):
+        # C20: a node that still reports leader after a tick must have heard from a majority within the fallback timeout
+        if self.is_ro(name):
+            return
+        if obj._isLeader():
+            fb = self.cfg['fallback']
+            mem = self.member_set(name)
+            h = self.heard[name]
+            cnt = 1 + sum(1 for v in mem if v != name and h.get(v, -1e9) > t_start - fb)
+            if cnt * 2 <= len(mem):
+                self.V('C20', 'leader-without-recent-majority',
+                       '%s still reports leader after a tick at its time %.4f although it heard from only %d of %d voters (self included) within leaderFallbackTimeout=%.2f: last heard %r' % (
+                           name, t_start, cnt, len(mem), fb, dict((v, round(t_start - h[v], 3)) for v in mem if v in h)))
+            silent = [v for v in mem if v != name and h.get(v, -1e9) <= t_start - fb]
+            if len(silent) * 2 >= len(mem) - (len(mem) % 2 == 0):
+                pass
+        self.leader_now[name] = obj._isLeader()
+
     def op_tick(self, a, b, c):
         name = self.pick(self.live(), a)
         if name is None:
             return False
         dt = DT[b % len(DT)]
-        CLOCK.advance(name, dt)
-        self.call(name, self.nodes[name]._onTick, 0.0)
+        self.tick_node(name, dt)
         return (name, dt)
 
     def _deliverables(self):
@@ -284,8 +334,7 @@ class Sim(object):
         k = a % len(names)
         dt = DT[b % len(DT)]
         for name in names[k:] + names[:k]:
-            CLOCK.advance(name, dt)
-            self.call(name, self.nodes[name]._onTick, 0.0)
+            self.tick_node(name, dt)
         return (dt,)
 
     def op_flush(self, a, b, c):
@@ -363,7 +412,8 @@ class Sim(object):
         cid = self.next_cid
         self.next_cid += 1
         sub = {'cid': cid, 'node': name, 'inc': self.incarnation[name], 'step': self.step_no, 'what': what[0], 'cbs': [],
-               'role': 'leader' if obj._isLeader() else ('ro' if self.is_ro(name) else 'follower')}
+               'role': 'leader' if obj._isLeader() else ('ro' if self.is_ro(name) else 'follower'),
+               'cut_epoch': self.cut_epoch[name] if self.cut_off(name) else None}
         self.subs[cid] = sub
 
         def cb(res, err, sub=sub):
@@ -399,8 +449,7 @@ class Sim(object):
     def calm_round(self, dt=0.02):
         self.heal_links()
         for name in self.live():
-            CLOCK.advance(name, dt)
-            self.call(name, self.nodes[name]._onTick, 0.0)
+            self.tick_node(name, dt)
         self.drain()
 
     def op_calm(self, a, b, c):
@@ -434,6 +483,26 @@ class Sim(object):
             return False
         self.blocked = set()
         return ()
+
+    def op_rojoin(self, a, b, c):
+        cands = [n for n in self.ro if n not in self.nodes]
+        if not cands:
+            return False
+        name = self.pick(cands, a)
+        self.start_node(name)
+        self.counters['ro_joins'] += 1
+        if len(self.terms_with_leader) > self.ro_terms_seen.get(name, 0) and name in self.ro_terms_seen:
+            self.ro_rejoined_after_leader_change = True
+        return (name,)
+
+    def op_roleave(self, a, b, c):
+        cands = [n for n in self.ro if n in self.nodes]
+        if not cands:
+            return False
+        name = self.pick(cands, a)
+        self.ro_terms_seen[name] = len(self.terms_with_leader)
+        self.stop_node(name, clean=True)
+        return (name,)
 
     def dead_voters(self):
         return [n for n in self.voters if n not in self.nodes]
@@ -523,9 +592,32 @@ class Sim(object):
                 self.V('C07', 'follows-leader-of-older-term', '%s follows %s as leader of term %d although it had acknowledged term %d before' % (to, frm, t, mx))
         self.pending_old_ae = []
         for name in self.live():
-            t = self.nodes[name].raftCurrentTerm
+            obj = self.nodes[name]
+            t = obj.raftCurrentTerm
             if t > self.max_term[name]:
                 self.max_term[name] = t
+            # C20 bookkeeping: isolation episodes, has-quorum indicator
+            if self.ro and obj._isLeader() and self.cut_off(name) and any(self.is_ro(y) for y in self.net.view.get(name, {})):
+                self.ro_with_minority = True
+            if self.cut_off(name):
+                now = CLOCK.t.get(name, core.EPOCH)
+                if name not in self.cut_since:
+                    self.cut_since[name] = (now, obj._isLeader())
+                elif self.cut_since[name][1] and now - self.cut_since[name][0] > self.cfg['fallback']:
+                    self.isolated_long.add(name)
+            else:
+                self.cut_epoch[name] += 1
+                if self.cut_since.pop(name, None) is not None and name in self.isolated_long:
+                    self.rejoined_after_isolation = True
+            known = set(self.addr2name.get(n.address) for n in obj.otherNodes)
+            conn = len(self.notified[name] & known)
+            total = len(known)
+            if not self.is_ro(name):
+                conn += 1
+                total += 1
+            want = conn * 2 > total
+            if bool(obj.hasQuorum) != want:
+                self.V('C20', 'hasQuorum-wrong', '%s.hasQuorum is %r but it was told %d of the %d voters it knows are connected (self included)' % (name, obj.hasQuorum, conn, total))
         advanced = []
         for name in self.live():
             obj = self.nodes[name]
@@ -612,6 +704,12 @@ class Sim(object):
                 if prevl is not None and prevl != (name, self.incarnation[name]):
                     self.V('C03', 'two-leaders-in-term', '%s became leader of term %d, but %s already was' % (name, term, prevl[0]))
                 self.leader_of[term] = (name, self.incarnation[name])
+                mem = self.member_set(name)
+                got = 1 + sum(1 for v in mem if v != name and name in self.votes_flat.get((v, term), ()))
+                if got * 2 <= len(mem) and not self.is_ro(name):
+                    self.V('C03', 'leader-without-majority-of-votes',
+                           '%s became leader of term %d with votes from only %d of %d voters (self included): %r' % (
+                               name, term, got, len(mem), sorted(v for v in mem if name in self.votes_flat.get((v, term), ()))))
                 self.terms_with_leader.add(term)
                 self.counters['leader_elected'] += 1
                 if any(not sub['cbs'] for sub in self.subs.values()):
@@ -646,6 +744,9 @@ class Sim(object):
                 self.V('C02', 'callback-fired-twice', 'submission cid %d on %s got callbacks %r' % (cid, sub['node'], [(FR.get(e, e), st) for _, e, st in cbs]))
             for res, err, st in new:
                 self.counters['cb_' + FR.get(err, str(err))] += 1
+                if err == 0 and sub.get('cut_epoch') is not None and sub['inc'] == self.incarnation[sub['node']] and \
+                        self.cut_off(sub['node']) and self.cut_epoch[sub['node']] == sub['cut_epoch']:
+                    self.V('C20', 'success-while-cut-off', 'cid %d was submitted on %s while it was cut off from a majority and got SUCCESS while still cut off' % (cid, sub['node']))
                 if err == 0:
                     obj = self.nodes.get(sub['node'])
                     if obj is not None:
